@@ -681,15 +681,37 @@ func RegisterEnvCancel(fn func()) {
 		id = t.id
 	}
 	mu.Lock()
-	envRegs = append(envRegs, &envReg{owner: id, occ: envOcc[id], fn: fn})
+	r := &envReg{owner: id, occ: envOcc[id], fn: fn}
+	envRegs = append(envRegs, r)
 	envOcc[id]++
+	// a cancellation that the model places in the very macro-step that arms the context (the
+	// thread's first step runs CancelAnytime and then reads the context) is already due
+	due := false
+	if trace != nil {
+		for _, ec := range trace.EnvCancels {
+			if ec.Owner == r.owner && ec.Occ == r.occ && ec.Step <= envStep {
+				due = true
+				r.fired = true
+			}
+		}
+	}
 	mu.Unlock()
+	if due {
+		logf("environment cancels the context armed by T%d (#%d) as soon as it is armed", r.owner, r.occ)
+		fn()
+	}
 }
+
+// envStep is the model step of the trace step being replayed (guarded by mu).
+var envStep = -1
 
 func fireEnv(step int) {
 	if trace == nil {
 		return
 	}
+	mu.Lock()
+	envStep = step
+	mu.Unlock()
 	for _, ec := range trace.EnvCancels {
 		if ec.Step > step {
 			continue
